@@ -35,6 +35,17 @@ PROPS = {
     ),
 }
 
+PROPS["C08"] = dict(
+    title="rule-language type soundness",
+    level="exploration",
+    technique="runtime monitor around the real checker+evaluator: checker-accepts => evaluation never panics / never type-errors / value has the checked type, plus differential against a reference interpreter",
+    text="Loads each generated expression exactly as the rule/log/load-balancer loaders do (parse, type_of in the request environment) with the real milu linked in; if accepted, evaluates it under 7 request environments under catch_unwind and requires no panic, no type error, a value of the checked scalar type, and equality with a lazy reference interpreter where that defines a value or a dynamic error. Bounded-exhaustive over every operator/function x a 26-leaf set (incl. wrong arities, tuple indices, request.* fields) and a depth-2 slice; random typed trees to depth 4 and ill-typed mutants beyond; thorough adds the dev-profile (overflow-checking) build.",
+    note="trusted: the harness reference type checker/interpreter (harness/inproc/c08.rs); error classification by message stem; composite (array/tuple) results are lazy and only judged when demanded",
+    design_ref="DESIGN.md 3 C08",
+    steps=[inproc("c08")],
+    assumptions=COMMON_ASSUME + ["reference interpreter encodes the documented semantics (README table, config comments)"],
+)
+
 NOT_YET = {}
 
 
